@@ -5,7 +5,8 @@
    with at most one injected failure.  Property: the helper reports an error
    whenever the destination is not a complete copy of the source
    (result ok => every source node is in the destination with equal content);
-   stale destination content is replaced, unrelated destination content stays.
+   stale destination content is replaced (longer content, and content of exactly
+   the same length written after the source), unrelated destination content stays.
    Variant "swallow" (a helper that drops the walk's errors) is the regression
    model.  Each (source tree, destination pre-state, helper) is printed as a
    scenario; the harness expands every fault position on the real calls. *)
@@ -15,7 +16,7 @@ CONSTANTS Names, MaxDepth, MaxNodes, Variant, Emit
 
 Paths == UNION { [1..n -> Names] : n \in 1..MaxDepth }
 Shapes == { t \in UNION { [S -> {"D", "x", "y"}] : S \in { S \in SUBSET Paths : Cardinality(S) <= MaxNodes } } : Wf(t) }
-DestPre == {"empty", "stale", "extra"}
+DestPre == {"empty", "stale", "samelen", "extra"}
 Helpers == {"fscopy", "copierdir", "copierfile", "streamcopy"}
 
 VARIABLES src, dpre, helper, dest, fault, done, failed, res
@@ -25,6 +26,9 @@ Files(t) == { p \in DOMAIN t : t[p] # "D" }
 PreTree(t, pre) ==
   CASE pre = "empty" -> EmptyTree
     [] pre = "stale" -> [p \in Files(t) \cup UNION { ProperPrefixes(q) : q \in Files(t) } |-> IF p \in Files(t) THEN "stale-and-longer" ELSE "D"]
+    \* every file is there already, written later than the source, with the SAME LENGTH but other bytes
+    \* (a helper must not take size and time for content)
+    [] pre = "samelen" -> [p \in Files(t) \cup UNION { ProperPrefixes(q) : q \in Files(t) } |-> IF p \in Files(t) THEN "same-" \o t[p] ELSE "D"]
     [] pre = "extra" -> (<<"zz">> :> "D" @@ <<"zz", "keep">> :> "k")
 \* what the helper has to transfer
 Work(t, h) == IF h \in {"copierfile", "streamcopy"} THEN { CHOOSE p \in Files(t) : TRUE } ELSE DOMAIN t
